@@ -561,9 +561,13 @@ def origin_outside_of_tetrahedron_planes(a, b, c, d):
     # The winding of all triangles has been chosen so that signd should have
     # the same sign for all components. If this is not the case the tetrahedron
     # is degenerate and we return that the origin is in front of all sides.
-    if np.all(signd > 0.0):
+    # A volume below the rounding noise of its computation does not determine
+    # an orientation either (flat tetrahedron).
+    noise = 100.0 * EPSILON * max(
+        a.dot(a), max(b.dot(b), max(c.dot(c), d.dot(d)))) ** 1.5
+    if np.all(signd > noise):
         return signp >= -EPSILON
-    elif np.all(signd < 0.0):
+    elif np.all(signd < -noise):
         return signp <= EPSILON
     else:
         # Mixed signs, degenerate tetrahedron
